@@ -1,7 +1,144 @@
-import Dagrt.Model.Match
-namespace Dagrt.C17
-open Dagrt Dagrt.Match
+import Dagrt.Proofs.MatchProofs
+/-!
+# C17 — a reported expression match is a genuine match
 
-theorem placeholder : URec.empty.lmap = [] := rfl
+Model: `Dagrt.Match` (`Model/Match.lean`) = `dagrt.expression.match` with `_ExtendedUnifier`
+(calls with keyword arguments, function symbols, unification modulo identity) **and** the part of
+pymbolic's `UnidirectionalUnifier` it runs on (records, `unify_many`, the commutative-associative
+search over candidate rows and partitions, `flattened_sum` / `flattened_product`).  The model is
+compared with the real `match` on every run (substitution, error kind, number of records).
+
+Semantics: `Dagrt.Hoist.evalZ` — integer valuations `ρ` of the variables, an arbitrary
+interpretation `F` of the function symbols and of every non-arithmetic operator.
+
+Hypothesis `wfT tmpl`: the (flattened) template contains no empty sum or product —
+`pymbolic.flatten` never produces one.  Templates containing and/or/min/max are answered with
+"no match" by the model (`supported`), so the theorems hold for them vacuously; the real code hands
+them to pymbolic's permutation matcher (outside the property's operator set).
+-/
+namespace Dagrt.C17
+open Dagrt Dagrt.Match Dagrt.Hoist
+
+/-- **The unifier is sound** — for every template, target, set of declared free variables,
+    iteration order of Python's sets and list of partial solutions handed in: each returned record
+    extends one of those partial solutions, binds declared free variables only, and every
+    substitution extending it makes the template evaluate to the target under every valuation and
+    every interpretation of the function symbols. -/
+theorem unifier_sound (C : List Name) (vf : Name → Name → Bool) (t : Expr) (hw : wfT t = true) :
+    Sound C vf t :=
+  sound_all C vf t.size t (Nat.le_refl _) hw
+
+theorem lookup_none_of_keys {C : List Name} {r : URec} (hk : KeysIn C r) :
+    DomC C (lookupE r.lmap) := by
+  intro x hx
+  cases h : lookupE r.lmap x with
+  | none => rfl
+  | some v => have := hk _ (lookupE_mem h); simp_all
+
+/-- the records the front end starts from -/
+theorem start_keys (C : List Name) (eqs : List (Name × Expr)) (h : eqs.all (fun p => C.contains p.1) = true) :
+    KeysIn C (URec.ofEqs eqs) := by
+  intro p hp
+  simp only [URec.ofEqs] at hp
+  exact (List.all_eq_true.mp h) p hp
+
+/-- **C17, main statement.**  Whenever `match` returns a substitution `m`:
+    (1) it binds only declared free variables;
+    (2) it agrees with every pre-supplied binding;
+    (3) substituting it into the template gives an expression with the value of the target, for
+        all values of the remaining variables and all interpretations of the function symbols. -/
+theorem match_genuine (C : List Name) (vf : Name → Name → Bool) (pre : Option (List (Name × Expr)))
+    (tmpl target : Expr) (m : List (Name × Expr)) (hw : wfT tmpl = true)
+    (h : matchE C vf pre tmpl target = .ok m) :
+    (∀ p ∈ m, p.1 ∈ C) ∧
+    (∀ eqs, pre = some eqs → ∀ x e, lookupE eqs x = some e → lookupE m x = some e) ∧
+    (∀ ρ F, evalZ ρ F (subst (lookupE m) tmpl) = evalZ ρ F target) := by
+  unfold matchE at h
+  cases pre with
+  | none =>
+    simp only at h
+    split at h
+    · simp at h
+    · rename_i r rest hu
+      simp at h; subst h
+      have hr : r ∈ unif C vf tmpl target [URec.empty] := by rw [hu]; exact List.mem_cons_self
+      obtain ⟨_, e2, e3⟩ := unifier_sound C vf tmpl hw target [URec.empty] r
+        (by intro u hu; simp at hu; subst hu; exact KeysIn_empty C) hr
+      refine ⟨fun p hp => by simpa using e2 p hp, by intro eqs h; simp at h, ?_⟩
+      exact e3 _ (fun _ _ h => h) (lookup_none_of_keys e2)
+  | some eqs =>
+    by_cases hall : eqs.all (fun p => C.contains p.1) = true
+    · simp only [hall, if_true] at h
+      split at h
+      · simp at h
+      · rename_i r rest hu
+        simp at h; subst h
+        have hr : r ∈ unif C vf tmpl target [URec.ofEqs eqs] := by rw [hu]; exact List.mem_cons_self
+        obtain ⟨⟨u, hu', e1⟩, e2, e3⟩ := unifier_sound C vf tmpl hw target [URec.ofEqs eqs] r
+          (by intro u hu; simp at hu; subst hu; exact start_keys C eqs hall) hr
+        simp at hu'; subst hu'
+        refine ⟨fun p hp => by simpa using e2 p hp, ?_, ?_⟩
+        · intro eqs' h x e hx
+          simp at h; subst h
+          exact e1 x e hx
+        · exact e3 _ (fun _ _ h => h) (lookup_none_of_keys e2)
+    · simp only [hall] at h
+      simp at h
+
+/-- when the unifier finds no record the documented error is raised — never a substitution -/
+theorem no_record_is_error (C : List Name) (vf : Name → Name → Bool) (tmpl target : Expr)
+    (h : unif C vf tmpl target [URec.empty] = []) :
+    matchE C vf none tmpl target = .error .cannotUnify := by
+  simp [matchE, h]
+
+/-- a pre-supplied binding for a name that is not a declared free variable is refused -/
+theorem pre_match_must_be_candidate (C : List Name) (vf : Name → Name → Bool) (eqs : List (Name × Expr))
+    (tmpl target : Expr) (p : Name × Expr) (hp : p ∈ eqs) (hn : C.contains p.1 = false) :
+    matchE C vf (some eqs) tmpl target = .error .preNotCandidate := by
+  have : eqs.all (fun p => C.contains p.1) = false := by
+    rw [List.all_eq_false]; exact ⟨p, hp, by rw [hn]; simp⟩
+  unfold matchE
+  simp only [this]
+  simp
+
+/-- an answer never contains two bindings for one name the record did not start with: the map the
+    front end returns is read with first-match look-up, and the unifier only ever appends names
+    that are not bound yet -/
+theorem unify_appends_new_names (a b r : URec) (h : a.unify b = some r) :
+    ∃ l, r.lmap = a.lmap ++ l ∧ ∀ p ∈ l, lookupE a.lmap p.1 = none := by
+  unfold URec.unify at h
+  split at h
+  · simp at h
+  · rename_i l hl
+    split at h
+    · simp at h
+    · simp at h; subst h
+      refine ⟨l, rfl, ?_⟩
+      generalize b.lmap = bm at hl
+      induction bm generalizing l with
+      | nil => simp [addsE] at hl; subst hl; simp
+      | cons q m ih =>
+        obtain ⟨n, v⟩ := q
+        simp only [addsE] at hl
+        split at hl
+        · split at hl
+          · exact ih l hl
+          · simp at hl
+        · rename_i hnone
+          split at hl
+          · rename_i a' ha'
+            simp at hl; subst hl
+            intro p hp
+            simp at hp
+            rcases hp with rfl | hp
+            · exact hnone
+            · exact ih a' ha' p hp
+          · simp at hl
+
+/-! non-vacuity: the hypotheses are met by real matches -/
+example : matchE ["x"] (fun _ _ => true) none (.var "x") (.const (.int 2)) = .ok [("x", .const (.int 2))] := by
+  simp [matchE, unif, unifVar, unifyMany, URec.unify, addsE, addsN, lookupE, URec.ofEq, URec.empty]
+
+example : wfT (.sum [.var "x", .call "f" [.var "y"] []]) = true := by decide
 
 end Dagrt.C17
